@@ -98,6 +98,13 @@ func GenC12(verifSeed uint64, run int) *Scenario {
 			sc["postinstall"] = "@SRC@scripts/verif-no-such-script.sh"
 			alt["scripts"] = sc
 			plan.AltFails = true
+			if g.Bool(0.6) {
+				// ... after a few hundred KiB of incompressible payload have gone
+				// into the compressor (several blocks in flight when it fails)
+				w.Tree = append(w.Tree, TreeEntry{Path: "src/big/blob.bin", Kind: "file", Size: g.Range(300_000, 600_000), Fill: g.Uint64(), Mode: 0o644, MTime: 1500000000})
+				l2, _ := alt["contents"].([]any)
+				alt["contents"] = append(l2, map[string]any{"src": "@SRC@src/big/blob.bin", "dst": "/usr/share/alt/blob.bin"})
+			}
 		}
 		plan.AltConfig = RenderConfig(alt)
 	}
@@ -379,6 +386,12 @@ func RunC12(rt *Runtime, sc *Scenario) RunResult {
 			continue
 		}
 		res.Counters["builds"]++
+		if c.res.Sink != nil && c.res.Sink.LateWrites() > 0 {
+			// a goroutine of this packaging outlived the call and wrote to the
+			// writer, which by then belonged to the caller again
+			violate(Violation{Oracle: "late-write", Format: c.plan.Format, Group: "write-after-package-returned",
+				Detail: fmt.Sprintf("client %d: %d write(s) to the destination writer of the %s packaging arrived after Package had returned (err=%v)", c.plan.ID, c.res.Sink.LateWrites(), c.plan.Format, c.res.Err != nil)})
+		}
 		if !c.plan.Signer && contains(w.Signed, c.plan.Format) && c.plan.Format != "apk" {
 			// key-file signed: salted signature, bytes are not logged
 			elog.Add("client %d package %s failed=%v (key-file signed) name=%s", c.plan.ID, c.plan.Format, c.res.Err != nil, c.name)
@@ -489,7 +502,16 @@ func runBaton(clients []*c12client, plan *C12Plan) (schedule []Switch, trace []s
 			defer wg.Done()
 			instrRegister(id)
 			b.WaitStart(id)
-			c.body(func(code int) { b.YieldCode(id, code) })
+			me := curGID()
+			c.body(func(code int) {
+				// a sink write may come from a goroutine of the compressor
+				// (zstd writes finished blocks asynchronously): only the
+				// client goroutine itself takes part in the hand-over
+				if curGID() != me {
+					return
+				}
+				b.YieldCode(id, code)
+			})
 			if c.plan.Kind == "prepare" && c.getErr == nil {
 				// stay parked (short, fresh race-detector history) until all
 				// packaging clients are done
@@ -526,6 +548,7 @@ func runBaton(clients []*c12client, plan *C12Plan) (schedule []Switch, trace []s
 	// empty again, which restores the one-runner invariant.
 	running := map[int]bool{}
 	lastTimeoutRelease := -1
+	idleTimeouts := 0
 	parked := make([]bool, n)
 	for i := range parked {
 		parked[i] = true
@@ -556,7 +579,9 @@ func runBaton(clients []*c12client, plan *C12Plan) (schedule []Switch, trace []s
 			// gets the lock it runs alongside the current runner until its
 			// next yield (brief true parallelism, only in runs where the
 			// code under test parks with a lock held).
+			wasRunning := map[int]bool{}
 			for r := range running {
+				wasRunning[r] = true
 				delete(running, r)
 			}
 			next := -1
@@ -569,8 +594,20 @@ func runBaton(clients []*c12client, plan *C12Plan) (schedule []Switch, trace []s
 			}
 			lastTimeoutRelease = next
 			if next < 0 {
+				// nobody else can run: the runner is not blocked by a parked
+				// client, it is busy (a large payload in a -race build on a
+				// loaded machine) or really stuck. Keep waiting for it, up to a
+				// minute in all, before calling it a deadlock.
+				idleTimeouts++
+				if idleTimeouts*batonTimeoutMs() < 60_000 {
+					for r := range wasRunning {
+						running[r] = true
+					}
+					continue
+				}
 				return schedule, trace, "baton: released client does not respond and nobody else can run (deadlock in the code under test?)"
 			}
+			idleTimeouts = 0
 			trace = append(trace, fmt.Sprintf("timeout:release %d", next))
 			held[next] = false
 			running[next] = true
